@@ -3,6 +3,9 @@
 package main
 
 // C11, thorough tier: the production channels end to end.
+//   kind N = like H, but the webhook is registered WITHOUT authorisation (empty token header and token) and the target
+//            insists that no Authorization header arrives.  Several H / N channels of one case are several
+//            webhooks of the ONE webhooks service, which is registered on the Notifier once.
 //   kind H = s.Services.Webhooks (production WebhooksService over the SQL webhook repository and the production
 //            HTTP client) with one webhook registered through CreateWebhook, pointing at an httptest server
 //            that records the POSTed bodies (ok -> 200, err -> 500, slow -> holds the request on the gate);
@@ -65,12 +68,19 @@ func (x *c11Real) ensureHooks() {
 		if !strings.HasPrefix(req.Header.Get("Content-Type"), "application/json") {
 			s = "WRONG-CONTENT-TYPE-" + s
 		}
-		if req.Header.Get("Authorization") != "Bearer c11token" {
+		wantAuth := "Bearer c11token"
+		if r.spec.Kind == "N" {
+			wantAuth = ""
+		}
+		if req.Header.Get("Authorization") != wantAuth {
 			s = "WRONG-AUTH-" + s
 		}
 		r.record(s)
 		if r.spec.Beh == "err" {
+			// an ordinary error page: a non-200 answer WITH a body (a client that does not drain / close it leaks
+			// the connection)
 			w.WriteHeader(http.StatusInternalServerError)
+			_, _ = w.Write([]byte("<html><body><h1>500 Internal Server Error</h1><p>" + strings.Repeat("the target is unwell. ", 12) + "</p></body></html>"))
 			return
 		}
 		w.WriteHeader(http.StatusOK)
@@ -146,7 +156,7 @@ func (p c11NodePub) Publish(channel string, data []byte, opts ...centrifuge.Publ
 func c11AddRealChannel(e *c11Env, nt *notification.Notifier, r *c11Rec) error {
 	x := c11real
 	switch r.spec.Kind {
-	case "H":
+	case "H", "N":
 		x.ensureHooks()
 		x.mu.Lock()
 		x.seq++
@@ -159,7 +169,14 @@ func c11AddRealChannel(e *c11Env, nt *notification.Notifier, r *c11Rec) error {
 			// the production limit matters here: deliveries wrongly counted as failures deactivate the webhook
 			e.s.Cfg.Webhook.MaxTries = 3
 		}
-		if _, err := e.s.Services.Webhooks.CreateWebhook("Bearer", "", "c11token", url); err != nil {
+		var err error
+		if r.spec.Kind == "N" {
+			// what POST /webhook does for a body without requiredAuth
+			_, err = e.s.Services.Webhooks.CreateWebhook("", "", "", url)
+		} else {
+			_, err = e.s.Services.Webhooks.CreateWebhook("Bearer", "", "c11token", url)
+		}
+		if err != nil {
 			return fmt.Errorf("CreateWebhook: %w", err)
 		}
 		r.closer = func() {
@@ -195,8 +212,11 @@ func c11Attach(e *c11Env, nt *notification.Notifier, r *c11Rec) {
 		nt.AddChannel(c11Raw{r})
 	case "W":
 		nt.AddChannel(notification.NewWebsocketChannel(e.s.Log, c11Pub{r}, e.s.Cfg.Websocket))
-	case "H":
-		nt.AddChannel(e.s.Services.Webhooks)
+	case "H", "N":
+		// the webhooks service is ONE channel, whatever the number of webhooks
+		if r.firstHook {
+			nt.AddChannel(e.s.Services.Webhooks)
+		}
 	case "C":
 		nt.AddChannel(notification.NewWebsocketChannel(e.s.Log, c11NodePub{r, c11real.ws.Publisher()}, e.s.Cfg.Websocket))
 	}
